@@ -21,7 +21,7 @@ LEVEL = "model_checking"
 LEAF_VALUES = [
     (E.T_INT, -1), (E.T_INT, -(2 ** 63)), (E.T_INT, 2 ** 63 - 1), (E.T_UINT, 2 ** 64 - 1), (E.T_UINT, 2 ** 63), (E.T_UINT, 0),
     (E.T_DOUBLE, -0.5), (E.T_DOUBLE, 1e300), (E.T_BOOL, True), (E.T_BOOL, False), (E.T_STRING, ""), (E.T_STRING, "plain"),
-    (E.T_STRING, "ünï-😀-𝄞"), (E.T_STRING, "s" * 0x3FF), (E.T_STRING, "L" * 0x400), (E.T_STRING, "B😀" * 0x300),
+    (E.T_STRING, "ünï-😀-𝄞"), (E.T_STRING, "\ufeffstarts with U+FEFF"), (E.T_STRING, "\ufffestarts with U+FFFE"), (E.T_STRING, "s" * 0x3FF), (E.T_STRING, "L" * 0x400), (E.T_STRING, "B😀" * 0x300),
     (E.T_ARRAY, b""), (E.T_ARRAY, bytes(range(256))), (E.T_ARRAY, bytes(range(256)) * 8), (E.T_ARRAY, b"\xff" * 0x7FF), (E.T_ARRAY, b"\x01" * 5000),
 ]
 KEYS = ["k", "configuration", "_197f74e3-b84b-46de-8ae6-82f1cd181cdc_", "ключ-✓", "鍵" * 60, "x" * 200, "with space", "K"]
@@ -129,7 +129,8 @@ def short(v):
 def build_file(x, nodes, rng):
     tables, fobjs, lay = E.plan_tables(nodes, ntables_free=set(x["free"]), stale=set(x["stale"]), newer_first=x["newerFirst"],
                                        pad_rng=rng if rng.random() < 0.5 else None)
-    seqs = (9, 4) if x["hdr"] == 1 else (4, 9)
+    hi, lo = rng.choice([(9, 4), (0x9000, 5), (0xFFFF, 1), (0x8001, 0), (2, 1)])
+    seqs = (hi, lo) if x["hdr"] == 1 else (lo, hi)
     return E.build(tables, fobjs, hdr_seqs=seqs)
 
 
